@@ -268,8 +268,8 @@ def run(c):
     for bi, b in enumerate(bins):
         tr = os.path.join(c.work, "record_trace_%d.ndjson" % bi)
         outp = os.path.join(c.work, "record_%d.json" % bi)
-        budget = (120000 if bi == 0 else 60000) if thorough else (6000 if bi == 0 else 3000)
-        rc, so = c.sh([b, "record", tr, outp], timeout=9000, env=dict(TYPES_ENV, VERIF_EDITS=budget, VERIF_SHORTN=10000 if thorough else 400))
+        budget = (80000 if bi == 0 else 40000) if thorough else (6000 if bi == 0 else 3000)
+        rc, so = c.sh([b, "record", tr, outp], timeout=9000, env=dict(TYPES_ENV, VERIF_EDITS=budget, VERIF_SHORTN=5000 if thorough else 400))
         if rc != 0:
             c.fail_tool("record harness failed rc=%s %s" % (rc, so[-300:]))
         res = json.load(open(outp))
@@ -284,20 +284,37 @@ def run(c):
         traces.append((tr, "record/%s" % os.path.basename(b)))
         c.sample({"recorded": read_ndjson(tr + ".side")[len(read_ndjson(tr + ".side")) // 2]})
 
-    # ---- 4. trace validation (all recorded files in ONE TLC run; line numbers are mapped back) ------
-    allp = os.path.join(c.work, "all_traces.ndjson")
-    lines, sides, origin = [{"ev": "meta", "spec": "AddrText"}], [{"ev": "meta"}], [None]
+    # ---- 4. trace validation: the recorded files are cut into pieces of <= PIECE lines (the JSON of a much
+    #         larger file does not fit the trace JVM); small files share one TLC run ------------------------
+    PIECE = 30000
+    buf_l, buf_s, buf_o = [], [], []
+    pieces = [0]
+
+    def flush():
+        if not buf_l:
+            return
+        piece = os.path.join(c.work, "traces_%d.ndjson" % pieces[0])
+        pieces[0] += 1
+        write_ndjson(piece, [{"ev": "meta", "spec": "AddrText"}] + buf_l)
+        write_ndjson(piece + ".side", [{"ev": "meta"}] + buf_s)
+        org = [None] + list(buf_o)
+        del buf_l[:], buf_s[:], buf_o[:]
+        n, pvs, drifts = validate_trace(c, piece, "traces")
+        c.cov["traces_validated_against_impl"] += n
+        for label in sorted({o for o in org if o}):
+            report(c, [x for x in pvs if org[x["l"] - 1] == label], [x for x in drifts if org[x["l"] - 1] == label], label)
+
     for tr, label in traces:
-        ls = read_ndjson(tr)[1:]
-        lines += ls
-        sides += read_ndjson(tr + ".side")[1:]
-        origin += [label] * len(ls)
-        if label.startswith("record"):
-            c.cov["evaluations"] += sum(len(l["chk"]) for l in ls)
-    write_ndjson(allp, lines)
-    write_ndjson(allp + ".side", sides)
-    n, pvs, drifts = validate_trace(c, allp, "traces")
-    c.cov["traces_validated_against_impl"] += n
-    for label in sorted({o for o in origin if o}):
-        report(c, [x for x in pvs if origin[x["l"] - 1] == label], [x for x in drifts if origin[x["l"] - 1] == label], label)
+        with open(tr) as f, open(tr + ".side") as g:
+            next(f), next(g)                      # meta lines
+            for l, sd in zip(f, g):
+                l = json.loads(l)
+                if label.startswith("record"):
+                    c.cov["evaluations"] += len(l["chk"])
+                buf_l.append(l)
+                buf_s.append(json.loads(sd))
+                buf_o.append(label)
+                if len(buf_l) >= PIECE:
+                    flush()
+    flush()
     c.cov["distinct_nontrivial"] = nontrivial
